@@ -1501,7 +1501,7 @@ fn gen_arith(g: &mut Gen) {
         };
         g.add("op:neg", format!("-({})", x.sql), format!("({})", x.cls), w, x.v != Null);
         for y in &nd {
-            for (op, name) in [('+', "op:+"), ('-', "op:-"), ('*', "op:*"), ('/', "op:div"), ('%', "op:%")] {
+            for (op, name) in [('+', "op:+"), ('-', "op:-"), ('*', "op:mul"), ('/', "op:div"), ('%', "op:%")] {
                 g.add(name, format!("{} {} {}", x.sql, op, y.sql), format!("({},{})", x.cls, y.cls), arith_ref(op, &x.v, &y.v), x.v != Null || y.v != Null);
             }
         }
@@ -2267,7 +2267,7 @@ impl Check for C20 {
         rep.expect_nonzero("violations:panic");
         rep.expect_nonzero("cases:op:+");
         rep.sample(|| json!({"f": "SUBSTR", "sql": "SUBSTR('a\u{1f600}b\u{1d11e}c', 5, 6)", "cls": "(utf8-4byte,pos=len,pos=len+1)"}));
-        rep.sample(|| json!({"f": "op:*", "sql": "9223372036854775807 * (-1)", "cls": "(int-max,int-neg1)"}));
+        rep.sample(|| json!({"f": "op:mul", "sql": "9223372036854775807 * (-1)", "cls": "(int-max,int-neg1)"}));
         // this worker's slice: whole batches of 32 consecutive cases
         let mine: Vec<Case> = cases.iter().enumerate().filter(|(k, _)| ctx.mine((*k / 32) as u64)).map(|(_, c)| c.clone()).collect();
         let (obs, st) = iso::run(&ctx.scratch, &mine);
